@@ -14,7 +14,7 @@ ASSUMPTIONS = ["rustc's name resolution and type check are correct",
 
 UPDATE = "patronus::expr::transform::update_expr_children"
 ADD_EXPR = "patronus::expr::context::Context::add_expr"
-INDEX_EXPR = "<patronus::expr::context::Context as std::ops::Index<patronus::expr::context::ExprRef>>::index"
+INDEX_EXPR = "<patronus::expr::context::Context as core::ops::index::Index<patronus::expr::context::ExprRef>>::index"
 
 
 def run(ctx):
